@@ -51,6 +51,9 @@ impl RuleMaker for RegexRule {
         let expression = cleanup_unrecognized_escape_sequences(expression);
         let expression = escape_misused_repetition_quantifier(&expression);
         let expression = escape_misused_character_class(&expression);
+        // the expression must be a regular expression by itself: within the
+        // anchoring group, unbalanced parentheses would otherwise change what is anchored
+        ByteRegex::new(&expression)?;
         let regex = ByteRegex::new(&format!("^(?:{})$", expression))?;
         Ok(Box::new(RegexRule(expression, regex)))
     }
